@@ -21,7 +21,7 @@ RULE = (
     "call sequences over {start, advance(1), advance(3), set_progress(0|max/2|max|max+2|-1), display, clear, finish} with a "
     "virtual-clock advance from {0, 10ms, 50ms, 200ms, 2s} before each call, on maxima {0,1,3,10,50,200}, bar widths "
     "{1,10,28,40}, min-interval {0,0.1,1}, outputs {ANSI, plain, section, quiet}, verbosity (selects the default format), "
-    "custom formats with a %message% of changing length and a two-line format. Part 'enum' runs every op sequence up to "
+    "custom formats with a %message% of changing length and a two-line format, bars given an I/O object whose standard output is of the other kind than its error output, maximum redraw interval {default, 0.02, 0.5, 3} s. Part 'enum' runs every op sequence up to "
     "length L (clock steps drawn per call from the seed) on a grid of configurations; part 'random' runs sequences up to "
     "length 60 with messages changing between calls. Per frame: bar segment width, shown step = model step (0..max), "
     "percentage = floor(100*step/max), throttle (advance-caused frames not reaching the maximum are >= min-interval after "
@@ -111,8 +111,16 @@ def run_sequence(sh, lab, cfg, ops, clocks, messages=None):
     out.set_verbosity(cfg["verbosity"])
     if kind == "quiet":
         out.set_quiet(True)
+    if cfg.get("via_io") and kind in ("ansi", "plain"):
+        # the bar is given an I/O object (it draws on the error output) whose standard output is of the other kind
+        other = lab.Output(lab.RecStream(), lab.PlainFormatter() if kind == "ansi" else lab.AnsiFormatter(forced=True))
+        other.set_verbosity(cfg["verbosity"])
+        target = lab.IO(lab.Input(lab.StringInputStream("")), other, out)
+        sh.count("bars_given_an_io_with_mixed_outputs")
     try:
         bar = lab.ProgressBar(target, cfg["max"], cfg["minsec"])
+        if cfg.get("maxsec") is not None:
+            bar.max_seconds_between_redraws(cfg["maxsec"])
         bar.set_bar_width(cfg["bw"])
         fmt = cfg.get("fmt")
         if fmt:
@@ -321,7 +329,8 @@ def run(sh, spec):
             kind = rng.choice(["ansi", "ansi", "plain", "plain", "section", "quiet"])
             mx = rng.choice([0, 1, 3, 10, 50, 200])
             fmt = rng.choice(FORMATS) if (mx and kind != "quiet") else None
-            cfg = dict(out=kind, max=mx, bw=rng.choice([1, 2, 10, 28, 40]), minsec=rng.choice([0, 0.1, 1]), verbosity=rng.choice([0, 1, 2, 4]), fmt=fmt)
+            cfg = dict(out=kind, max=mx, bw=rng.choice([1, 2, 10, 28, 40]), minsec=rng.choice([0, 0.1, 1]), verbosity=rng.choice([0, 1, 2, 4]), fmt=fmt,
+                       via_io=rng.random() < 0.25, maxsec=rng.choice([None, None, 0.02, 0.5, 3]))
             n = rng.randint(1, 60) if rng.random() < 0.3 else rng.randint(1, 12)
             ops = [("start",)] if rng.random() < 0.8 else []
             ops += [rng.choice(OPS) for _ in range(n)]
